@@ -23,6 +23,7 @@ type Ctx struct {
 	graphs map[ast.Node]*cfgx.Graph
 	flows  map[*load.FuncInfo]*fieldFlow
 	ircF   *ircFacts
+	tables map[*types.Var][]*load.FuncInfo
 }
 
 // borrow names a rule set of another property whose obligations are necessary conditions of the borrowing property too,
